@@ -1,7 +1,7 @@
 CONSTANTS P = 283  A = 0  B = 3  Gx = 1  Gy = 2  N = 277
           SecLens <- LensQ
           Stage = "sec"
-          SecPfx = {2, 3, 4, 7}  SecXs <- AllX2  SecYs = {}  SecLongYs = {0, 255} DerPos <- PosNone  DerExt <- One0  DerExtLen = 0
+          SecPfx = {2, 3}  SecXs <- AllX2  SecYs = {}  SecLongYs = {0, 255} DerPos <- PosNone  DerExt <- One0  DerExtLen = 0
 SPECIFICATION Spec
 INVARIANT NoBad
 CHECK_DEADLOCK FALSE
